@@ -36,14 +36,14 @@ import (
 // return everything.
 
 type c13Case struct {
-	Part    string `json:"part"` // deadline | cluster | memory | http
-	Query   int    `json:"query"`
-	Row     int    `json:"row"`            // deadline expires after this many rows (-1: already expired)
-	Subset  int    `json:"subset"`         // bitmask of faulty partitions
-	Mode    string `json:"mode,omitempty"` // cluster failure mode / http scenario
-	K       int    `json:"k,omitempty"`
-	P       int    `json:"p,omitempty"`
-	Path    string `json:"path,omitempty"`
+	Part   string `json:"part"` // deadline | cluster | memory | http
+	Query  int    `json:"query"`
+	Row    int    `json:"row"`            // deadline expires after this many rows (-1: already expired)
+	Subset int    `json:"subset"`         // bitmask of faulty partitions
+	Mode   string `json:"mode,omitempty"` // cluster failure mode / http scenario
+	K      int    `json:"k,omitempty"`
+	P      int    `json:"p,omitempty"`
+	Path   string `json:"path,omitempty"`
 }
 
 func c13Table() dbdrv.TableDef {
@@ -180,11 +180,11 @@ var errInjected = errors.New("injected partition failure")
 
 func c13ClusterQueries() []string {
 	return []string{
-		"SELECT * FROM t13",                                   // pushdown
-		"SELECT a, ca FROM t13 GROUP BY x",                    // pushdown (partition key in group by)
-		"SELECT a FROM t13 GROUP BY y",                        // non-pushdown
-		"SELECT a FROM t13 GROUP BY x, CROSSTAB(y)",           // non-pushdown (crosstab)
-		"SELECT * FROM t13 ORDER BY a DESC",                   // pushdown + order
+		"SELECT * FROM t13",                                    // pushdown
+		"SELECT a, ca FROM t13 GROUP BY x",                     // pushdown (partition key in group by)
+		"SELECT a FROM t13 GROUP BY y",                         // non-pushdown
+		"SELECT a FROM t13 GROUP BY x, CROSSTAB(y)",            // non-pushdown (crosstab)
+		"SELECT * FROM t13 ORDER BY a DESC",                    // pushdown + order
 		"SELECT a FROM t13 GROUP BY y HAVING a > 1 ORDER BY a", // non-pushdown + having
 	}
 }
@@ -487,10 +487,10 @@ func c13CheckHTTP(c *fw.Ctx, db *dbdrv.DB, cs c13Case) {
 
 func init() {
 	fw.Register(&fw.Prop{
-		ID:        "C13",
-		Level:     "fault_enumeration",
-		NoThreads: true,
-		Rule: "ground truth R0 = complete run. (1) operator deadlines: 30 query shapes (filter, group, crosstab, having, sort, offset, limit, IN- and FROM-subqueries, shift, stride, ranges) × deadline already expired or made to expire after row i for every i (the consumer itself sleeps past the deadline: deterministic); (2) cluster, P in {2,3}: every non-empty subset of partitions × {no handler, error before any row, error after k rows for every k, handler blocking past ClusterQueryTimeout, retriable error then success} × 6 pushdown and non-pushdown queries with harness-registered handlers; (3) memory cap: MaxMemoryRatio 1e-12 with a 1 001-key table; (4) HTTP via web.Configure on httptest: {QueryTimeout 1ns, response-size estimate tripping after row K for K<=6, final JSON size check, planning error} × {/immediate, /async, /run} then a second request (cache) and the permalink; oracle per faulted run: error, or partition reported missing, or HTTP status != 200, or the complete result; retriable-then-success must be complete; evaluations = faulted runs, non-trivial = faults that actually removed data or were reported",
+		ID:          "C13",
+		Level:       "fault_enumeration",
+		NoThreads:   true,
+		Rule:        "ground truth R0 = complete run. (1) operator deadlines: 30 query shapes (filter, group, crosstab, having, sort, offset, limit, IN- and FROM-subqueries, shift, stride, ranges) × deadline already expired or made to expire after row i for every i (the consumer itself sleeps past the deadline: deterministic); (2) cluster, P in {2,3}: every non-empty subset of partitions × {no handler, error before any row, error after k rows for every k, handler blocking past ClusterQueryTimeout, retriable error then success} × 6 pushdown and non-pushdown queries with harness-registered handlers; (3) memory cap: MaxMemoryRatio 1e-12 with a 1 001-key table; (4) HTTP via web.Configure on httptest: {QueryTimeout 1ns, response-size estimate tripping after row K for K<=6, final JSON size check, planning error} × {/immediate, /async, /run} then a second request (cache) and the permalink; oracle per faulted run: error, or partition reported missing, or HTTP status != 200, or the complete result; retriable-then-success must be complete; evaluations = faulted runs, non-trivial = faults that actually removed data or were reported",
 		Assumptions: []string{"deadlines are exercised by outlasting them, never by racing them", "/run and /async wait 5 s in the web coalescer and are exercised for one query each"},
 		Shards:      func(tier string) int { return 8 },
 		Budget:      func(tier string) time.Duration { return 25 * time.Minute },
